@@ -297,9 +297,8 @@ class CFGBuilder(AstVisitor[BB | None]):
         check_modifiers_enabled(node)
         self._validate_modified_block(node)
 
-        cfg = CFGBuilder().build(node.body, True, self.globals)
         new_node = ModifiedBlock(
-            cfg=cfg,
+            cfg=CFG(),
             **dict(ast.iter_fields(node)),
         )
 
@@ -308,12 +307,11 @@ class CFGBuilder(AstVisitor[BB | None]):
             modifier = self._handle_withitem(item)
             new_node.push_modifier(modifier)
 
-        # FIXME: Currently, the unitary flags is not set correctly if there are nested
-        # `with` blocks. This is because the outer block's unitary flags are not
-        # propagated to the outer block. The following line should calculate the sum
-        # of the unitary flags of the outer block and modifiers applied in this
-        # `with` block.
-        cfg.unitary_flags = new_node.flags()
+        # The body has to respect the unitary flags of the enclosing context in
+        # addition to the modifiers applied in this `with` block. The flags need to be
+        # known before the body is built so that nested `with` blocks inherit them.
+        flags = self.cfg.unitary_flags | new_node.flags()
+        new_node.cfg = CFGBuilder().build(node.body, True, self.globals, flags)
 
         set_location_from(new_node, node)
         bb.statements.append(new_node)
